@@ -19,8 +19,8 @@ import (
 func init() { subcommands["c05worker"] = c05Worker }
 
 type wout struct {
-	w                       *bufio.Writer
-	slow                    bool
+	w                        *bufio.Writer
+	slow                     bool
 	evals, states, trans, nt int64
 }
 
@@ -139,6 +139,26 @@ func c05Objects(o *wout, shard, n int, thorough bool) {
 					o.fail("call-geometry-"+A.Kind+"-"+B.Kind, mk(), "returns normally within its budget", f)
 				}
 			}
+		}
+	}
+	// constructions over degenerate layouts (index building), then a few calls
+	for bi, b := range c05Builders() {
+		if bi%n != shard {
+			continue
+		}
+		o.states++
+		o.evals++
+		var obj geojson.Object
+		mk := func() rt.Case { return rt.Case{Kind: "call", Op: "build", X: map[string]string{"recv": b.name}} }
+		o.begin(mk)
+		if f := guarded(budget(400, 0), func() {
+			obj = b.fn()
+			obj.Contains(obj)
+			obj.Intersects(obj)
+			obj.JSON()
+			obj.Spatial().IntersectsRect(callRect)
+		}); f != "" {
+			o.fail("build-and-query", mk(), "constructs and answers within its budget", f)
 		}
 	}
 	o.w.WriteString("O objects\n")
